@@ -10,6 +10,11 @@ def _op(prop, inp):
 
 def gen_C01(v, n):
     out = [_op("C01", {"s": v.c01_string()}) for _ in range(n)]
+    for _ in range(max(5, n // 25)):      # after a Sid object of the same string and another type went through the factory
+        label, s, fields = v.typed_sid(search=0.6)
+        others = [l for l in v.labels if len(v.tdict[l]) == len(fields) and l != label]
+        if others:
+            out.append(_op("C01", {"s": s, "pre": [v.rng.choice(others) + ":" + s]}))
     for s in ["", ":", "a:b:c", "hamlet\n", "hamlet/a/char\n", "hamlet/s/sq001/sh0010/anim/v001/w/ma\n", "project:hamlet",
               "nope:hamlet", ":hamlet", "asset__file:hamlet/a/char/x/model/v001/w/ma", "hamlet/s/sq٠٠١"]:
         out.append(_op("C01", {"s": s}))
@@ -127,7 +132,7 @@ def gen_C09(v, n):
                     segs[j] = "*" if (j < i or rng.random() < 0.8) else ">"
             if v.aliases and rng.random() < 0.2 and i != len(segs) - 1:
                 segs[-1] = rng.choice(list(v.aliases.keys()))
-            out.append(_op("C09", {"l": L, "s": "/".join(segs), "index": i}))
+            out.append(_op("C09", {"l": L, "s": "/".join(segs), "index": i, "repeat": rng.choice([1, 2, 3])}))
     out.append(_op("C09", {"l": ["hamlet/a/char/a/model/v001/w/ma", "hamlet/a/char/a-b/model/v001/w/ma"],
                            "s": "hamlet/a/char/>/model/*/w/*", "index": 3}))
     return out
@@ -194,6 +199,17 @@ def _searches(v, leaves, n, allow_gt=0.3):
             pl = [l for l, ks in v.templates if [k for k, _ in ks] == [k for k, _ in fields[:i]]]
             base = (pl[0], fields[:i]) if pl else base
         out.append(sg.search(base=base, allow_gt=rng.random() < allow_gt, malformed=0.02))
+    # '**' followed by one, two or three concrete trailing segments (they land on different keys for
+    # leaf types of different depth), with and without '*'
+    for label, fields in leaves[:4]:
+        segs = [val for _, val in fields]
+        for tail in (1, 2, 3):
+            if len(segs) > tail + 2:
+                head = rng.randint(2, len(segs) - tail - 1)
+                t = list(segs[-tail:])
+                if rng.random() < 0.4:
+                    t[rng.randrange(len(t))] = "*"
+                out.append("/".join(segs[:head]) + "/**/" + "/".join(t))
     return out
 
 
@@ -241,42 +257,81 @@ def gen_C12(v, n):
     return out
 
 
+def _c15_alphabet(v):
+    """the small alphabet of the quantifier: a file, its extension sibling (same sidecar), a sibling
+    with another stem, their folder, a parent, a path-less Sid, an untyped string"""
+    rng = v.rng
+    for _ in range(50):
+        leaves = families.tree_universe(v, nleaf=1)
+        label, fields = leaves[0]
+        parts = [val for _, val in fields]
+        if any("." in p for p in parts[:-1]):
+            continue
+        lk = fields[-1][0]
+        exts = [w for w in (v.closed.get(lk) or []) if w not in v.aliases and w != parts[-1]]
+        r = dict(v.tdict[label])[lk]
+        from gen import re_words
+        same_group = [w for w in re_words(r, rng) if w in exts]
+        if not same_group:
+            continue
+        a = "/".join(parts)
+        b = "/".join(parts[:-1] + [rng.choice(same_group)])
+        keys = [k for k, _ in fields]
+        c_parts = list(parts)
+        for key in ("state", "version"):
+            if key in keys:
+                i = keys.index(key)
+                alt = [w for w in re_words(dict(v.tdict[label])[key], rng) if w not in ("*", ">") and w != parts[i]]
+                if alt:
+                    c_parts[i] = rng.choice(alt)
+                    break
+        c = "/".join(c_parts)
+        folder = "/".join(parts[:-2])
+        parent = "/".join(parts[:-3]) if len(parts) > 4 else "/".join(parts[:2])
+        return [a, b, c, folder, parent, "/".join(parts[:-1]), "junk"]
+    return None
+
+
 def gen_C15(v, n):
+    import itertools
     rng = v.rng
     out = []
-    from gen import NAMES
-    for _ in range(n):
-        leaves = families.tree_universe(v, nleaf=rng.randint(2, 3))
-        ls = [s for s in _leaf_strings(leaves)]
-        pool = []
-        for s in ls:
-            parts = s.split("/")
-            # directory levels whose name contains a dot are created as FILES by WriteToPaths (known finding K4)
-            if any("." in p for p in parts[:-1]):
-                continue
-            for i in range(1, len(parts) + 1):
-                pool.append("/".join(parts[:i]))
-        if not pool:
+    for u in range(n):
+        alpha = _c15_alphabet(v)
+        if not alpha:
             continue
-        pool = sorted(set(pool)) + ["junk", "hamlet/a/char/x/model/v001/w"]
-        ops = []
-        for _ in range(rng.randint(4, 40) if rng.random() < 0.5 else rng.randint(2, 6)):
-            s = rng.choice(pool)
-            x = rng.random()
-            if x < 0.3:
-                op = {"do": "create", "sid": s}
-                if rng.random() < 0.4:
-                    op["data"] = families._attr_data(rng)
-            elif x < 0.5:
-                op = {"do": rng.choice(["update", "set"]), "sid": s, "data": families._attr_data(rng)}
-                if op["do"] == "set":   # keyword spelling: the key 'sid' would collide with the parameter
-                    op["data"] = [kv for kv in op["data"] if " " not in kv[0] and kv[0] != "sid"]
-            elif x < 0.8:
-                op = {"do": "get_data", "sid": s}
-            else:
-                op = {"do": "exists", "sid": s}
-            ops.append(op)
-        out.append(_op("C15", {"ops": ops}))
+
+        def mk(kind, s):
+            if kind == "create+":
+                return {"do": "create", "sid": s, "data": families._attr_data(rng)}
+            if kind in ("update", "set"):
+                d = families._attr_data(rng)
+                if kind == "set":
+                    d = [kv for kv in d if " " not in kv[0] and kv[0] != "sid"]
+                return {"do": kind, "sid": s, "data": d}
+            return {"do": kind, "sid": s}
+        if u % 3 == 0:
+            # exhaustive: every ordered pair of write operations over the alphabet, each followed by reads
+            writes = [(k, s) for k in ("create", "create+", "update") for s in alpha[:5]]
+            pairs = list(itertools.product(writes, repeat=2))
+            rng.shuffle(pairs)
+            for (k1, s1), (k2, s2) in pairs[:60]:
+                ops = [mk(k1, s1), mk(k2, s2)] + [{"do": "get_data", "sid": s} for s in alpha[:3]] + [{"do": "exists", "sid": s} for s in alpha[:4]]
+                out.append(_op("C15", {"ops": ops}))
+        else:
+            ops = []
+            for _ in range(rng.randint(3, 40) if rng.random() < 0.6 else rng.randint(2, 6)):
+                s = rng.choice(alpha)
+                x = rng.random()
+                if x < 0.3:
+                    ops.append(mk(rng.choice(["create", "create+"]), s))
+                elif x < 0.55:
+                    ops.append(mk(rng.choice(["update", "set"]), s))
+                elif x < 0.8:
+                    ops.append({"do": "get_data", "sid": s})
+                else:
+                    ops.append({"do": "exists", "sid": s})
+            out.append(_op("C15", {"ops": ops}))
     return out
 
 
